@@ -527,6 +527,192 @@ fn run_e(line: &str) -> String {
     }
 }
 
+// (U) end to end over a Unix STREAM socket with back-pressure: a real exporter (DogStatsDBuilder, `unix://` remote, length-prefixed
+//   frames) against a harness-owned listener whose agent, on every connection, reads the first bytes, PAUSES, then drains.
+//   `U <values per batch> <max payload len> <write timeout ms> <agent pause ms> <flush interval ms> <aggressive 0|1> <prefix 0|1>`
+//   script: counter `uc` += 5, gauge `ug` = 1, histogram `uh` records 0..n-1 (sampling on, reservoir > n: ONE frame of ~8 bytes per
+//   value); wait pause + 500 ms; counter += 7, gauge = 2, records n..2n-1; wait pause + 700 ms; stop the agent.
+//   The agent decodes every connection's byte stream strictly: [u32 LE len][payload], len in 1..=max, payload = exactly one well-formed
+//   line of a known metric; a connection may END inside a frame (that is what a timed-out write_all leaves behind) but the bytes of that
+//   partial frame must still be payload text. stdout:
+//   `U <connections> <whole frames> <largest frame> <truncated tails> <hist values seen twice> <fabricated> <distinct hist values> <counter sum> <largest counter delta> <gauge values ,-joined|-> <errors> | <first error>`
+fn run_u(line: &str) -> String {
+    use metrics::Recorder as _;
+    use metrics_exporter_dogstatsd::{AggregationMode, DogStatsDBuilder};
+    use std::io::Read as _;
+    use std::sync::atomic::{AtomicBool, AtomicUsize, Ordering};
+    use std::time::Duration;
+    static METADATA: metrics::Metadata<'static> = metrics::Metadata::new("verif", metrics::Level::INFO, None);
+    static SEQ: AtomicUsize = AtomicUsize::new(0);
+    let f: Vec<&str> = line.split_whitespace().collect();
+    let n: usize = f[1].parse().unwrap();
+    let maxp: usize = f[2].parse().unwrap();
+    let wt = Duration::from_millis(f[3].parse().unwrap());
+    let pause = Duration::from_millis(f[4].parse().unwrap());
+    let interval = Duration::from_millis(f[5].parse().unwrap());
+    let aggressive = f[6] == "1";
+    let prefix = f[7] == "1";
+    let path = format!("/tmp/c10-uds-{}-{}.sock", std::process::id(), SEQ.fetch_add(1, Ordering::SeqCst));
+    let _ = std::fs::remove_file(&path);
+    let listener = std::os::unix::net::UnixListener::bind(&path).unwrap();
+    listener.set_nonblocking(true).unwrap();
+    let stop = Arc::new(AtomicBool::new(false));
+    let stop2 = stop.clone();
+    let agent = std::thread::spawn(move || {
+        let mut streams: Vec<Vec<u8>> = Vec::new();
+        while !stop2.load(Ordering::SeqCst) {
+            let mut conn = match listener.accept() {
+                Ok((c, _)) => c,
+                Err(_) => {
+                    std::thread::sleep(Duration::from_millis(2));
+                    continue;
+                }
+            };
+            conn.set_nonblocking(false).unwrap();
+            conn.set_read_timeout(Some(Duration::from_millis(20))).unwrap();
+            let mut got: Vec<u8> = Vec::new();
+            let mut buf = vec![0u8; 1 << 16];
+            let mut paused = false;
+            loop {
+                match conn.read(&mut buf[..if paused { 1 << 16 } else { 16 }]) {
+                    Ok(0) => break,
+                    Ok(k) => {
+                        got.extend_from_slice(&buf[..k]);
+                        if !paused {
+                            paused = true;
+                            std::thread::sleep(pause);
+                        }
+                    }
+                    Err(_) => {
+                        if stop2.load(Ordering::SeqCst) {
+                            break;
+                        }
+                    }
+                }
+            }
+            streams.push(got);
+        }
+        streams
+    });
+    let mut b = DogStatsDBuilder::default()
+        .with_remote_address(format!("unix://{}", path))
+        .unwrap()
+        .with_maximum_payload_length(maxp)
+        .unwrap()
+        .with_write_timeout(wt)
+        .with_flush_interval(interval)
+        .with_telemetry(false)
+        .with_histogram_sampling(true)
+        .with_histogram_reservoir_size(2 * n + 1024)
+        .with_aggregation_mode(if aggressive { AggregationMode::Aggressive } else { AggregationMode::Conservative });
+    if prefix {
+        b = b.set_global_prefix("app");
+    }
+    let recorder = b.build().unwrap();
+    let c = recorder.register_counter(&Key::from_name("uc"), &METADATA);
+    let g = recorder.register_gauge(&Key::from_name("ug"), &METADATA);
+    let h = recorder.register_histogram(&Key::from_name("uh"), &METADATA);
+    c.increment(5);
+    g.set(1.0);
+    for i in 0..n {
+        h.record(i as f64);
+    }
+    std::thread::sleep(pause + Duration::from_millis(500));
+    c.increment(7);
+    g.set(2.0);
+    for i in n..2 * n {
+        h.record(i as f64);
+    }
+    std::thread::sleep(pause + Duration::from_millis(700));
+    stop.store(true, Ordering::SeqCst);
+    let streams = agent.join().unwrap();
+    let _ = std::fs::remove_file(&path);
+
+    // strict decoding
+    let pfx = if prefix { "app." } else { "" };
+    let text_ok = |b: &[u8]| b.iter().all(|x| *x == b'\n' || (0x20..0x7f).contains(x));
+    let (mut frames, mut maxframe, mut trunc, mut fab, mut csum, mut cmax) = (0u64, 0usize, 0u64, 0u64, 0u64, 0u64);
+    let mut counts = vec![0u8; 2 * n];
+    let mut gvals: Vec<String> = Vec::new();
+    let mut errs: Vec<String> = Vec::new();
+    for (ci, st) in streams.iter().enumerate() {
+        let mut pos = 0usize;
+        while pos < st.len() {
+            if st.len() - pos < 4 {
+                trunc += 1;
+                break;
+            }
+            let l = u32::from_le_bytes([st[pos], st[pos + 1], st[pos + 2], st[pos + 3]]) as usize;
+            if l == 0 || l > maxp {
+                errs.push(format!("connection {} offset {}: frame length {} outside 1..={}", ci, pos, l, maxp));
+                break;
+            }
+            if pos + 4 + l > st.len() {
+                let part = &st[pos + 4..];
+                trunc += 1;
+                if !text_ok(part) || part.iter().rev().skip(1).any(|x| *x == b'\n') {
+                    errs.push(format!("connection {} offset {}: the {} bytes of an unfinished frame (declared {}) are not one payload line", ci, pos, part.len(), l));
+                }
+                break;
+            }
+            let body = &st[pos + 4..pos + 4 + l];
+            pos += 4 + l;
+            frames += 1;
+            maxframe = maxframe.max(l);
+            if !text_ok(body) || body.last() != Some(&b'\n') || body[..l - 1].contains(&b'\n') {
+                errs.push(format!("connection {} frame {} ({} bytes) is not one text line", ci, frames, l));
+                continue;
+            }
+            let line = std::str::from_utf8(&body[..l - 1]).unwrap();
+            let fields: Vec<&str> = line.split('|').collect();
+            let head: Vec<&str> = fields[0].split(':').collect();
+            let ty = fields.get(1).copied().unwrap_or("?");
+            let has_ts = fields.iter().skip(2).any(|x| x.starts_with('T'));
+            let name = head[0];
+            if name == format!("{}uc", pfx) && ty == "c" && head.len() == 2 && has_ts == aggressive {
+                match head[1].parse::<u64>() {
+                    Ok(v) => {
+                        csum = csum.wrapping_add(v);
+                        cmax = cmax.max(v);
+                    }
+                    Err(_) => errs.push(format!("connection {} frame {}: bad counter value {}", ci, frames, head[1])),
+                }
+            } else if name == format!("{}ug", pfx) && ty == "g" && head.len() == 2 && has_ts == aggressive {
+                gvals.push(head[1].to_string());
+            } else if name == format!("{}uh", pfx) && ty == "d" && !has_ts {
+                for v in &head[1..] {
+                    match v.parse::<f64>() {
+                        Ok(x) if x >= 0.0 && x.fract() == 0.0 && (x as usize) < 2 * n => {
+                            let c = &mut counts[x as usize];
+                            *c = c.saturating_add(1);
+                        }
+                        _ => fab += 1,
+                    }
+                }
+            } else {
+                errs.push(format!("connection {} frame {}: unexpected message {:?}", ci, frames, &line[..line.len().min(60)]));
+            }
+        }
+    }
+    let dups = counts.iter().filter(|c| **c >= 2).count();
+    let distinct = counts.iter().filter(|c| **c >= 1).count();
+    format!(
+        "U {} {} {} {} {} {} {} {} {} {} {} | {}",
+        streams.len(),
+        frames,
+        maxframe,
+        trunc,
+        dups,
+        fab,
+        distinct,
+        csum,
+        cmax,
+        if gvals.is_empty() { "-".to_string() } else { gvals.join(",") },
+        errs.len(),
+        errs.first().cloned().unwrap_or_default()
+    )
+}
+
 // only the storage.rs sites take part in the schedule; the registry's own yield points (6xx, C06) inside
 // State::flush are passed through (the registry is not part of this model)
 fn c10_site(site: u32) -> bool {
@@ -544,7 +730,7 @@ fn main() {
         if line.trim().is_empty() {
             continue;
         }
-        let r = if line.starts_with('S') { run_s(&line) } else if line.starts_with('X') { run_x(&line) } else if line.starts_with('Y') { run_y(&line) } else if line.starts_with('E') { run_e(&line) } else { run_o(&line) };
+        let r = if line.starts_with('S') { run_s(&line) } else if line.starts_with('X') { run_x(&line) } else if line.starts_with('Y') { run_y(&line) } else if line.starts_with('E') { run_e(&line) } else if line.starts_with('U') { run_u(&line) } else { run_o(&line) };
         writeln!(w, "{}", r).unwrap();
     }
 }
